@@ -82,7 +82,7 @@ def check(w):
     gokr = w.build_repo_cmd()
     if quick:
         scen = []
-        line = lambda s: (tuple(s["base"]), tuple(s["extra"]), tuple(s["paths"]), bool(s.get("noreply")))
+        line = lambda s: (s.get("prog", "rsync"), tuple(s["base"]), tuple(s["extra"]), tuple(s["paths"]), bool(s.get("noreply")))
         anon_exec, auth_exec, other = {}, {}, []
         for s in allscen:
             if s["req"] != "exec":
@@ -124,7 +124,7 @@ def check(w):
             if o["id"] in rej2:
                 confirmed += 1
                 s = o["scn"]
-                v.violation({"what": what_of(o), "listener": o["listener"], "req": o["req"], "base": " ".join(s["base"]), "keyfile": s["keyfile"] if o["listener"] == "auth" else "", "real": bool(s.get("real"))},
+                v.violation({"what": what_of(o), "listener": o["listener"], "req": o["req"], "prog_word": "rsync" if s.get("prog", "rsync") == "rsync" else ("path" if s["prog"].startswith("/") else "option-like"), "base": " ".join(s["base"]), "keyfile": s["keyfile"] if o["listener"] == "auth" else "", "real": bool(s.get("real"))},
                             {"scenario": s, "cmd": o.get("cmd"), "admitted": o["admitted"], "outcome": o["outcome"], "first": o.get("first"), "exit": o.get("exit"), "modules": o["modules"],
                              "canary": o["canary"], "outsideread": o["outsideread"], "dropped": o["dropped"], "alive": o["alive"], "events": o.get("events", [])[:6], "err": o.get("err", "")[:600]})
     good = [o for o in obs if o["id"] not in rej]
@@ -166,7 +166,7 @@ def check(w):
         "anon_refused": n_anon_refused, "daemon_protocol_sessions": n_daemon, "handshakes_denied": n_denied, "authorised_command_sessions": n_cmd_auth,
         "rule": "every scenario is one SSH session (golang.org/x/crypto/ssh client) against the real listener: authorized_keys shapes {empty, blank lines, comments only, one key, several keys with comments}, "
                 "client keys {listed/unlisted ed25519, ecdsa, rsa, a certificate merely naming a listed key as CA}, requests {exec, shell, env, subsystem, pty-req, direct-tcpip channel}, "
-                "exec command lines = 6 option bases x 14 extras (-e/--rsh canary, -a, --help, --version, --gokr.modulemap / --gokr.config naming outside paths, --daemon / --server as the argument of -e, --rsh, --exclude, --filter) x 6 path argument shapes; "
+                "exec command lines = program word {rsync, a path, --daemon, --server, --no-detach, --config=...: the first word is never an option} x 6 option bases x 14 extras (-e/--rsh canary, -a, --help, --version, --gokr.modulemap / --gokr.config naming outside paths, --daemon / --server as the argument of -e, --rsh, --exclude, --filter) x 6 path argument shapes; "
                 + ("quick: every anonymous command line, every key file x key pair with the canonical and two random lines, every non-exec anonymous request" if quick else "all %d scenarios" % len(allscen))
                 + "; plus a sample driven against the gokr-rsync binary built from the tree (its own namespace/privilege-drop path and maincmd's session closure)",
         "action_coverage": cov, "negative_controls": len(bad), "worker_deaths": summ["crashed"], "confirmed_rejections": confirmed,
